@@ -172,7 +172,7 @@ def build_ocaml(name):
     ok, out = coq_make([os.path.join("Extract", name.upper() + ".vo")])
     if not ok:
         return False, out
-    srcs = [ext, os.path.join(VERIF, "ocaml", "common", "conv.ml"), os.path.join(VERIF, "ocaml", name, "driver.ml")]
+    srcs = [ext] + sorted(glob.glob(os.path.join(VERIF, "ocaml", "common", "*.ml"))) + sorted(glob.glob(os.path.join(VERIF, "ocaml", name, "*.ml")))
     vos = glob.glob(os.path.join(COQ, "*", "*.vo"))
     stamp = file_sha(srcs) + sha(*[str(os.path.getmtime(v)) for v in sorted(vos)])
     sp = os.path.join(d, ".stamp")
@@ -181,9 +181,22 @@ def build_ocaml(name):
     rc, out = sh(["coqc", "-Q", COQ, "ACH", ext], cwd=d, timeout=600)
     if rc != 0:
         return False, out
-    shutil.copy(srcs[1], d)
-    shutil.copy(srcs[2], d)
-    rc, out2 = sh("ocamlfind ocamlopt -O3 -w -a model.mli model.ml conv.ml driver.ml -o driver 2>&1 || ocamlfind ocamlopt -w -a model.mli model.ml conv.ml driver.ml -o driver", cwd=d, timeout=900)
+    model_src = open(os.path.join(d, "model.ml")).read()
+    units = ["conv.ml"]
+    if "Zpos" in model_src:
+        units.append("convz.ml")
+    if "EmptyString" in model_src:
+        units.append("convstr.ml")
+    for u in units:
+        shutil.copy(os.path.join(VERIF, "ocaml", "common", u), d)
+    for extra in sorted(glob.glob(os.path.join(VERIF, "ocaml", name, "*.ml"))):
+        shutil.copy(extra, d)
+        b = os.path.basename(extra)
+        if b != "driver.ml":
+            units.append(b)
+    units.append("driver.ml")
+    files = "model.mli model.ml " + " ".join(units)
+    rc, out2 = sh("ocamlfind ocamlopt -O3 -w -a %s -o driver 2>&1 || ocamlfind ocamlopt -w -a %s -o driver" % (files, files), cwd=d, timeout=900)
     if rc != 0:
         return False, out + out2
     with open(sp, "w") as f:
